@@ -167,7 +167,18 @@ fn put_num(mut v: u64, put: &mut impl FnMut(&[u8], &mut usize), n: &mut usize) {
     put(&d[..k], n);
 }
 
+static IN_FATAL_HANDLER: AtomicBool = AtomicBool::new(false);
+
 extern "C" fn on_fatal_signal(sig: i32) {
+    // several worker threads can abort at the same moment: the first one to arrive dumps the slots and ends the
+    // process, the others wait (a second O_TRUNC open could otherwise empty the file just before _exit)
+    if IN_FATAL_HANDLER.swap(true, Ordering::SeqCst) {
+        loop {
+            unsafe {
+                libc::pause();
+            }
+        }
+    }
     unsafe {
         let fd = libc::open(
             std::ptr::addr_of!(CRASH_PATH) as *const libc::c_char,
